@@ -621,7 +621,7 @@ class Gen:
             # R3: the arm is a statement of a loop body whose function ends with `suffix`; a `continue` of that loop ends the arm
             inner = [(l[0], src.match[l[3]]) for l in find_loops(src, arm.body_lo, arm.body_hi)]
             for k in range(arm.body_lo, arm.body_hi + 1):
-                if src.is_id(k, 'continue') and src.is_p(k + 1, ';') and not any(a < k < b for a, b in inner):
+                if src.is_id(k, 'continue') and (src.is_p(k + 1, ';') or src.is_p(k + 1, ',') or src.is_p(k + 1, '}')) and not any(a < k < b for a, b in inner):
                     proofs = list(proofs) + [(0, '@span', (src.toks[k].start, src.toks[k].end, 'return ' + suffix))]
                     self.drops.add('R3: `continue` in a sliced match arm of a loop body becomes `return`')
         segs = self.body_with_insertions(src, arm.body_lo, arm.body_hi, loops, proofs, rel)
@@ -1072,10 +1072,23 @@ class Gen:
                 if src.is_id(k, 'return') and src.is_p(k + 1, ';'):
                     proofs = list(proofs) + [(0, '@span', (src.toks[k].start, src.toks[k].end, 'return ' + rv))]
                     self.drops.add('R4: `return;` of the enclosing function inside a sliced loop body becomes `return %s`' % rv)
+        # R4: `return EXPR;` inside the sliced body leaves the ENCLOSING function with a value; the body function reports it wrapped
+        # (`retwrap=CTOR` -> `return CTOR(EXPR);`)
+        if 'retwrap' in kw:
+            for k in range(bopen + 1, src.match[bopen]):
+                if any(a <= k <= b for a, b in stubbed):
+                    continue
+                if src.is_id(k, 'return') and not src.is_p(k + 1, ';'):
+                    e = k + 1
+                    while not (src.is_p(e, ';') or src.is_p(e, ',') or src.is_p(e, '}')):
+                        e = src.match[e] + 1 if src.toks[e].kind == 'punct' and src.toks[e].text in '([{' else e + 1
+                    proofs = list(proofs) + [(0, '@span', (src.toks[k + 1].start, src.toks[e - 1].end,
+                                                            '%s(%s)' % (kw['retwrap'], src.text[src.toks[k + 1].start:src.toks[e - 1].end])))]
+                    self.drops.add('R4: `return EXPR` of the enclosing function inside a sliced loop body becomes `return %s(EXPR)`' % kw['retwrap'])
         # R4: a `continue` of THIS loop (not of a nested loop / closure) ends the body function: `return [suffix]`
         inner = [(l[0], src.match[l[3]]) for l in find_loops(src, bopen + 1, src.match[bopen])]
         for k in range(bopen + 1, src.match[bopen]):
-            if src.is_id(k, 'continue') and src.is_p(k + 1, ';') and not any(a < k < b for a, b in inner):
+            if src.is_id(k, 'continue') and (src.is_p(k + 1, ';') or src.is_p(k + 1, ',') or src.is_p(k + 1, '}')) and not any(a < k < b for a, b in inner):
                 cv = kw['cont'].replace('~', ' ') if 'cont' in kw else suffix
                 proofs = list(proofs) + [(0, '@span', (src.toks[k].start, src.toks[k].end, ('return ' + cv).strip()))]
                 self.drops.add('R4: `continue` of a sliced loop body becomes `return`')
